@@ -15,13 +15,16 @@ P = {
          "refinement proof Impl=Spec (mutual induction over AST and JSON) + differential correspondence"),
  'C02': ("C02_partial/query_ordered: list equality with the RFC order for every query without a multi-selector segment at top level (filters unconstrained); "
          "C02_refuted: selector-major union order (`$[*][0,1]`), pinned by index_unit_keys_test - open known finding, class = multi-selector segment receiving >= 2 nodes. "
-         "Correspondence on ordered address-derived locations.", "5.2", "refinement proof (ordered) + kernel-checked refutation + correspondence"),
+         "Correspondence on ordered address-derived locations; a member-order suite runs a Queryable type whose objects keep their members in reverse name order against "
+         "the model on the reordered document; entry points must not differ in order.", "5.2", "refinement proof (ordered) + kernel-checked refutation + correspondence"),
  'C03': ("C03a_partial/result_paths: for documents with plain member names and normalized name selectors every reported path is Spec.npath of the node's location and the "
          "node lives there; C03a_refuted (`$[\"a\"]` -> `$['\"a\"']`). C03b_injective/C03b_decodable: for ALL locations (arbitrary member names) the Normalized Path determines "
          "the node. C03c_ast: the AST of a Normalized Path, run as a query, returns exactly that node with that path. Re-query of every reported path on the real crate, "
          "and path recomputation from address-derived locations, by correspondence.", "5.3", "pointer-invariant proof + refutation + correspondence incl. re-query"),
  'C04': ("cmpData_spec: the six operators on evaluated operands equal the RFC comparison (== and < primitive, others derived), eqJson_spec: JSON equality = RFC equality "
-         "(numbers by exact value, containers structurally); derived-operator laws by rfl. Correspondence: operand-pair table x 6 operators x operand forms.", "5.4",
+         "(numbers by exact value, containers structurally); derived-operator laws by rfl; trichotomy; C04_literals_representable: for ALL strings the number literals of an accepted query are integers in the I-JSON "
+         "range or decimals that round to a finite double. Correspondence: operand-pair table x 6 operators x operand forms, containers of 47-130 members, quote-enclosed member "
+         "names, operands with colliding texts, i64 integers beyond 2^53.", "5.4",
          "proof by case analysis + mutual induction on Json; exhaustive operand table"),
  'C05': ("flt_spec/C05_logical: truth value computed for a child = RFC truth value of the logical expression for all well-formed filters (any nesting); C05_children: a filter "
          "selector keeps exactly the children satisfying it, in order; existence independent of the value; $ denotes the root.", "5.5",
@@ -37,7 +40,8 @@ P = {
  'C08': ("eval_never_err (and parsed_never_errs on strings); slice loops are well-founded recursions, slice_iterations_bounded <= len; slice_no_overflow/index_no_overflow: "
          "with every i64 operation checked, no overflow for integers in the I-JSON range and lengths <= 2^62. Panics/aborts/timeouts of the real code are observed by "
          "isolated workers (overflow checks on): integer extremes, programmatically built ASTs, multi-byte text next to syntax errors, long queries, and ladders run on an "
-         "UNOPTIMISED second build: nesting, 19 wide-document shapes (up to 200 000 / 10^6 elements), long paths. Open known findings: stack exhaustion at 10^3-10^4 nested "
+         "UNOPTIMISED second build: nesting, 19 wide-document shapes (up to 200 000 / 10^6 elements), documents nested 1 000 / 10 000 (30 000) levels built in code, "
+         "long paths; regex patterns of every shape (crashes only). Open known findings: document nesting of thousands of levels exhausts the stack in descendant walks and deep equality; stack exhaustion at 10^3-10^4 nested "
          "parentheses; exponential backtracking on nested function calls with an unparsable innermost argument.", "5.8",
          "totality + invariants in Lean; runtime faults by isolated-worker correspondence"),
  'C09': ("walk_spec/put_get/frame: lens laws of reference/reference_mut over name/index steps for all documents, step lists and values; the string->steps link (parser on "
@@ -52,7 +56,7 @@ P = {
  'C12': ("Thin theorem: the model's entry points are projections of one result, parse-once = parse-each, a session over the model is stateless. Purity of the REAL code "
          "is carried by (i) a source obligation checked on the text of /repo/src at every run: no mutable static, thread-local, interior mutability, unsafe, clock, "
          "environment or file access - safe Rust without these is a function of its arguments; (ii) the history/thread correspondence (sequences, repetitions, fresh-process "
-         "reference, N threads on shared Arc, document snapshot). Labelled partial: data races and address-keyed caches cannot be exhibited by the model.", "5.12", "projection theorems + history/thread differential runs"),
+         "reference, N threads on shared Arc, document snapshot, query/query_only_path/parsed-once agreement with query_with_path on every evaluated case). Labelled partial: data races and address-keyed caches cannot be exhibited by the model.", "5.12", "projection theorems + history/thread differential runs"),
  'C13': ("name_spellings: all escape-free spellings of a member name select the same node; number_spellings: int/float spellings compare alike under all operators; "
          "same_spec_same_nodes. String-level blank-space invariance by metamorphic correspondence (6 spellings per abstract query).", "5.13",
          "AST-level proof + metamorphic correspondence"),
@@ -60,7 +64,8 @@ P = {
          "transcription of the evaluator (EvalG: selectors, descendants, unions, nested filters, comparisons, deep equality, all functions) returns position by "
          "position the same paths/locations and the views of the values that the Json evaluator returns on the viewed document; instantiated at Json it shows "
          "EvalG = Eval. Correspondence: the same cases through serde_json::Value and through a second Queryable type in the harness (Vec-backed members, separate "
-         "unsigned variant, lossy Debug, no reference override).", "5.15", "simulation proof over a trait-generic model + second-implementation differential run"),
+         "unsigned variant, lossy Debug, no reference override; variants with PartialEq by value, with members in reverse name order - judged against the model on the "
+         "reordered document - and with equal member values stored once and shared through Rc).", "5.15", "simulation proof over a trait-generic model + second-implementation differential run"),
  'C14': ("in/nin/any_of/none_of/subset_of equal the list-membership definitions for all arguments (w.r.t. the data type's ==); complement laws; non-array/missing -> false.", "5.14",
          "direct proof by simp on the model + correspondence"),
 }
